@@ -63,6 +63,7 @@ def run(ck):
     ck.rule("R4", "a constant narrowed to S bits is proved to fit in S bits", floor=8)
     ck.rule("R4b", "an out-of-range guard joining both sides with `or` does not return a single truth value", floor=1)
     ck.rule("R5", "Python-level ** and << on integers taken from expressions are bounded", floor=2)
+    ck.rule("R7", "a Python-level sum/product/shift of operand constants re-encoded with ExprInt is not used where wrapping modulo 2^size changes the value (shift/rotate counts, division, comparison)", floor=1)
     ck.rule("R6", "pass loop stops on class change; enable_passes clears the cache", floor=3)
 
     tables = pass_tables(ck)
@@ -99,6 +100,7 @@ def run(ck):
 
     # ---------------------------------------------------------------- R5 / R4 / R4b over every pass and the helpers they share a module with
     seen_fn = set()
+    n7 = 0
     for rel in sorted(set(p[2] for p in passes)):
         m = ck.repo.mod(rel)
         for q, f in sorted(m.funcs.items()):
@@ -108,6 +110,17 @@ def run(ck):
             _r5(ck, m, q, f)
             _r4(ck, m, q, f)
             _r4b(ck, m, q, f)
+            n7 += _r7(ck, m, q, f)
+    # positive/negative fixtures for R7 (its instance count on a correct tree may be zero)
+    fx = ast.parse(_R7_FIXTURE)
+    for node in ast.walk(fx):
+        for ch in ast.iter_child_nodes(node):
+            ch._parent = node
+    got = dict((fn_.name, [st for (_n, _c, st) in _r7_sites(fn_)]) for fn_ in fx.body)
+    if got != {"wraps": ["unbounded"], "bounded": ["bounded"], "modular": [], "folded": [], "reduced": []}:
+        raise AnalysisError("R7 self-check on the built-in fixture failed: %r" % (got,))
+    ck.ob("R7", "fixture:wrap-detected", True, "rules/c01.py:_R7_FIXTURE", "built-in positive and negative examples classified as expected")
+    ck.note("R7: %d wrap-sensitive re-encoding site(s) in the passes" % n7)
 
     # ---------------------------------------------------------------- R2
     from sa import kinds
@@ -130,6 +143,105 @@ def run(ck):
 
 
 # ------------------------------------------------------------------------------------------------ R5
+_R7_FIXTURE = '''
+def wraps(e_s, expr):
+    op_name, args = expr.op, list(expr.args)
+    if op_name in ['<<', '>>'] and args[0].is_op(op_name):
+        X = args[0].args[1]
+        Y = args[1]
+        if X.is_int() and Y.is_int():
+            args = [args[0].args[0], ExprInt(int(X) + int(Y), X.size)]
+    return ExprOp(op_name, *args)
+def bounded(e_s, expr):
+    op_name, args = expr.op, list(expr.args)
+    if op_name in ['<<', '>>'] and args[0].is_op(op_name):
+        X = args[0].args[1]
+        Y = args[1]
+        if X.is_int() and Y.is_int() and int(X) + int(Y) < expr.size:
+            args = [args[0].args[0], ExprInt(int(X) + int(Y), X.size)]
+    return ExprOp(op_name, *args)
+def modular(e_s, expr):
+    op_name, args = expr.op, list(expr.args)
+    if op_name == '+' and args[0].is_int() and args[1].is_int():
+        return ExprInt(int(args[0]) + int(args[1]), expr.size)
+    return expr
+def folded(e_s, expr):
+    if expr.op == '<<' and expr.args[0].is_int() and expr.args[1].is_int() and int(expr.args[1]) < expr.size:
+        return ExprInt(int(expr.args[0]) << int(expr.args[1]), expr.size)
+    return expr
+def reduced(e_s, expr):
+    if expr.op == '>>>' and expr.args[0].is_op('>>>'):
+        return ExprOp('>>>', expr.args[0].args[0], ExprInt((int(expr.args[1]) + int(expr.args[0].args[1])) % expr.size, expr.size))
+    return expr
+'''
+# operators whose operand may not be replaced by a value congruent modulo 2^size
+_WRAP_SENSITIVE = set(["<<", ">>", "a>>", "<<<", ">>>", "udiv", "umod", "sdiv", "smod", "/", "%", "idiv", "imod",
+                       "<u", "<=u", "<s", "<=s", "==", "**"])
+
+
+def _py_int_source(n):
+    return any((isinstance(x, ast.Call) and callee_attr(x) == "int") or (isinstance(x, ast.Attribute) and x.attr == "arg") for x in walk_local(n))
+
+
+def _r7_sites(f):
+    """[(ExprInt call, context operators, 'bounded'|'unbounded')] for wide re-encodings in wrap-sensitive contexts."""
+    res = Resolver(f)
+    out = []
+    cfg = facts = None
+    for n in walk_body(f):
+        if not (isinstance(n, ast.Call) and callee_attr(n) == "ExprInt" and len(n.args) == 2):
+            continue
+        e = res.expand_node(n.args[0])
+        wide = isinstance(e, ast.BinOp) and ((isinstance(e.op, (ast.Add, ast.Mult)) and _py_int_source(e.left) and _py_int_source(e.right))
+                                              or (isinstance(e.op, ast.LShift) and _py_int_source(e.right)))
+        if not wide:
+            continue
+        # only an operand of a rebuilt expression: a constant that *is* the folded result is reduced modulo 2^size rightly
+        par = getattr(n, "_parent", None)
+        operand = isinstance(par, (ast.List, ast.Tuple, ast.BinOp, ast.Starred)) or (isinstance(par, ast.Call) and callee_attr(par) == "ExprOp")
+        if not operand:
+            continue
+        if cfg is None:
+            cfg = CFG(f)
+            facts = guard_facts(cfg)
+        for nd in cfg.node_containing(n):
+            fs = facts.get(nd.id, frozenset())
+            ctx = None
+            for ft in fs:
+                ops = None
+                if ft[0] == "cmp" and ft[1].split(".")[-1] in ("op", "op_name") and ft[2] in ("==", "in"):
+                    try:
+                        v = ast.literal_eval(ft[3])
+                    except Exception:
+                        continue
+                    ops = set([v]) if isinstance(v, str) else set(v)
+                elif ft[0] == "true":
+                    mt = re.match(r"^(expr|e)\.is_op\('([^']+)'\)$", ft[1])
+                    if mt:
+                        ops = set([mt.group(2)])
+                if ops is not None:
+                    ctx = ops if ctx is None else (ctx & ops)
+            if not ctx or not ctx <= _WRAP_SENSITIVE:
+                continue
+            raw, exp = norm(n.args[0]), norm(e)
+            bounded = False
+            for ft in fs:
+                if ft[0] == "cmp" and ((ft[2] in ("<", "<=") and ft[1] in (raw, exp)) or (ft[2] in (">", ">=") and ft[3] in (raw, exp))):
+                    bounded = True
+            out.append((n, sorted(ctx), "bounded" if bounded else "unbounded"))
+    return out
+
+
+def _r7(ck, m, q, f):
+    k = 0
+    for (n, ctx, st) in _r7_sites(f):
+        k += 1
+        ck.ob("R7", "%s:%s:ExprInt(%s)" % (m.rel.split("/")[-1], q, norm(n.args[0])), st == "bounded", m.where(n),
+              "under operator(s) %s the constant `%s` is a Python-level result that ExprInt reduces modulo 2^size with no bound on it: "
+              "a count/operand of 2^size+k is rewritten to k" % (ctx, norm(n.args[0])))
+    return k
+
+
 def _r5(ck, m, q, f):
     cfg = None
     for n in walk_body(f):
